@@ -2584,7 +2584,9 @@ class Model:
         for charac in self._exec_order["characs"]:
             charac.update(ti)
 
-        do_program_overwrite = self.programs_active and self.program_instructions.start_year <= self.t[ti] <= self.program_instructions.stop_year
+        # The time vector can contain floating point noise (e.g. 2002.0000000000002 or 2001.9999999999998 instead of 2002.0, depending on the simulation start year)
+        # so a small tolerance is used to make sure that programs are active at a time point that coincides with the program start or stop year
+        do_program_overwrite = self.programs_active and (self.program_instructions.start_year - 1e-9) <= self.t[ti] <= (self.program_instructions.stop_year + 1e-9)
 
         if do_program_overwrite:
             prop_coverage = sc.odict.fromkeys(self._program_cache["comps"], 0.0)
